@@ -216,13 +216,13 @@ def build_harness(ctx):
     return binp
 
 
-def run_sharded(ctx, vh, facet, extra=(), nshards=None, timeout=3600):
+def run_sharded(ctx, vh, facet, extra=(), nshards=None, timeout=3600, tag=None):
     """Run `vh <facet>` in nshards processes; returns list of shard output dirs."""
     nshards = nshards or NSHARDS
     procs = []
     for k in range(nshards):
-        out = ctx.sub("%s-out-%d" % (facet, k))
-        work = ctx.sub("%s-work-%d" % (facet, k))
+        out = ctx.sub("%s-out-%d" % (tag or facet, k))
+        work = ctx.sub("%s-work-%d" % (tag or facet, k))
         cmd = [vh, facet, "-seed", str(ctx.seed), "-tier", ctx.tier, "-out", out, "-work", work,
                "-shard", str(k), "-nshards", str(nshards)] + list(extra)
         errf = open(os.path.join(out, "stderr.txt"), "w")
